@@ -275,8 +275,15 @@ func parseRaceLog(text string) []raceReport {
 				if strings.HasPrefix(fn, "runtime.") || strings.HasPrefix(fn, "internal/") || strings.HasPrefix(fn, "sync.") || strings.HasPrefix(fn, "sync/") {
 					continue
 				}
-				top = fn
-				break
+				if top == "?" {
+					top = fn
+				}
+				// The access is attributed to the innermost frame of the code under test or of the harness: a library
+				// (ygot, protobuf, reflect) that two tasks enter without synchronisation is the caller's race.
+				if strings.HasPrefix(fn, "github.com/openconfig/gribigo/") || strings.HasPrefix(fn, "verifsim/") {
+					top = fn
+					break
+				}
 			}
 			tops = append(tops, top)
 		}
